@@ -10,7 +10,7 @@ from .._backends.base import NetworkBackend, NetworkStream
 from .._exceptions import ConnectionNotAvailable, ProxyError, map_exceptions
 from .._models import URL, Origin, Request, Response, enforce_bytes, enforce_url
 from .._ssl import default_ssl_context
-from .._synchronization import Lock
+from .._synchronization import Lock, ShieldCancellation
 from .._trace import Trace
 from .connection_pool import ConnectionPool
 from .http11 import HTTP11Connection
@@ -224,6 +224,7 @@ class Socks5Connection(ConnectionInterface):
 
         with self._connect_lock:
             if self._connection is None:
+                stream = None
                 try:
                     # Connect to the proxy
                     kwargs = {
@@ -297,6 +298,9 @@ class Socks5Connection(ConnectionInterface):
                         )
                 except BaseException as exc:
                     self._connect_failed = True
+                    if stream is not None:
+                        with ShieldCancellation():
+                            stream.close()
                     raise exc
             elif not self._connection.is_available():  # pragma: nocover
                 raise ConnectionNotAvailable()
